@@ -393,8 +393,13 @@ class Pipe:
     def __init__(self, cfg, obs, sink):
         self.cfg, self.obs, self.sink = cfg, obs, sink
         self.entities = []
-        self.extra_events = []
         self.comp = None
+
+    def make_extra_events(self):
+        """Control events of the pipeline (limit changes, gate schedule).  Built only AFTER the
+        Simulation exists: events created earlier would carry creation indices of the previous
+        simulation in this process, i.e. an unowned tie-break against same-instant arrivals."""
+        return []
 
     def free_for(self, tag):
         raise NotImplementedError
@@ -514,9 +519,12 @@ class PipeServer(Pipe):
         if m == "dynamic" and cfg.get("knob"):
             self.knob = Knob("knob", lambda arg: self.server.concurrency_model.set_limit(arg), obs)
             self.entities.append(self.knob)
-            for (t, lim) in cfg["knob"]:
-                self.extra_events.append(Event(time=Instant.from_seconds(t), event_type="SetLimit", target=self.knob,
-                                               context={"metadata": {"arg": lim}}))
+
+    def make_extra_events(self):
+        if self.knob is None:
+            return []
+        return [Event(time=Instant.from_seconds(t), event_type="SetLimit", target=self.knob,
+                      context={"metadata": {"arg": lim}}) for (t, lim) in self.cfg["knob"]]
 
     def snap(self):
         s = self.server
@@ -640,10 +648,12 @@ class PipeGate(EntityPipe):
                                    initially_open=cfg["open0"], queue_capacity=cfg["cap"] or 0)
         self.entry = self.comp
         self.entities = [self.comp]
-        self.extra_events = self.comp.start_events()
         for a, b in cfg["schedule"]:
             obs.changes.add(a)
             obs.changes.add(b)
+
+    def make_extra_events(self):
+        return self.comp.start_events()
 
     def snap(self):
         c = self.comp
@@ -730,7 +740,13 @@ def build(kind, cfg, arrivals):
     keep = Sink("keepalive", lambda tag: None)
     ents.append(keep)
     sim = Simulation(entities=ents)
+    # creation order = tie-break on one instant: control events (limit change, gate open/close) are
+    # created before the arrivals (ctl_first, default) or after them - both orders are enumerated
+    ctl_first = cfg.get("ctl_first", True)
     events = []
+    if ctl_first:
+        for p in pipes:
+            events += p.make_extra_events()
     for tag, (t, hops, svc, prio, weight, r) in enumerate(arrivals):
         md = {"tag": tag, "svc": svc, "prio": prio, "weight": weight, "r": r}
         events.append(Event(time=Instant.from_seconds(int(t)), event_type="Req", target=chains[hops],
@@ -738,9 +754,10 @@ def build(kind, cfg, arrivals):
         first.obs.arr_times[tag] = t
         for o in obs_list:
             o.meta.setdefault(tag, md)
+    if not ctl_first:
+        for p in pipes:
+            events += p.make_extra_events()
     events.append(Event(time=Instant.from_seconds(HORIZON_T), event_type="KeepAlive", target=keep))
-    for p in pipes:
-        events += p.extra_events
     sim.schedule(events)
     return sim, pipes, obs_list
 
